@@ -218,6 +218,37 @@ func init() {
 	R("I64", func(e *Engine, fr *frame, a []Value) Value { return e.draw(64, "i64") })
 	R("Int", func(e *Engine, fr *frame, a []Value) Value { return e.draw(64, "int") })
 	R("Bool", func(e *Engine, fr *frame, a []Value) Value { return e.draw(0, "bool") })
+	R("ByteIn", func(e *Engine, fr *frame, a []Value) Value {
+		alpha := strVal(a[0])
+		t := e.draw(8, "u8")
+		if t.IsConst() {
+			v := t.C.Uint64()
+			for i := 0; i < len(alpha); i++ {
+				if uint64(alpha[i]) == v {
+					return t
+				}
+			}
+			r := BV(8, int64(alpha[v%uint64(len(alpha))]))
+			e.inputs[len(e.inputs)-1] = r
+			return r
+		}
+		// membership as a disjunction of ranges
+		in := Bool(false)
+		for i := 0; i < len(alpha); {
+			j := i
+			for j+1 < len(alpha) && alpha[j+1] == alpha[j]+1 {
+				j++
+			}
+			if i == j {
+				in = Or(in, Eq(t, BV(8, int64(alpha[i]))))
+			} else {
+				in = Or(in, And(Ule(BV(8, int64(alpha[i])), t), Ule(t, BV(8, int64(alpha[j])))))
+			}
+			i = j + 1
+		}
+		e.assume(in)
+		return t
+	})
 	R("Bytes", func(e *Engine, fr *frame, a []Value) Value {
 		n := e.concretize(a[0].(Term), 0, 1<<20)
 		out := make([]Value, n)
